@@ -29,6 +29,18 @@ def evaluate(src):
         return "outside", f"{out.kind}:{out.title}", out.message[-1200:]
     if out.kind == "unsupported":
         return "unsupported", out.title, out.message[:300]
+    if out.kind == "timeout":
+        # CPython finished this program within pyref's step bound; an emulator run that is still going after
+        # the (generous) limit is confirmed once on a fresh build before it is reported
+        out2, lm2 = runner.run_source(runner.PRELUDE + src)
+        if lm2 is not None:
+            lm2.dispose()
+        if out2.kind == "timeout":
+            return "mismatch", "nontermination", (f"{out.message}; results so far {out.stream[-5:]}; Python finished with "
+                                                  f"{len(ref)} results")
+        out = out2
+        if out.kind in ("rejected", "crash", "invalid", "unsupported"):
+            return "unsupported", "unstable:" + out.kind, out.message[:300]
     if out.kind == "panic":
         if pan is None:
             return "mismatch", "panic.unexpected", (
@@ -101,7 +113,65 @@ def worker(ctx):
             st1, b1, d1 = evaluate(part)
             record(part, labels, nt, st1, b1, d1)
 
-    harness.hyp_search(ctx, strat, body, max_examples=ctx.params["n"], chunk=10, time_frac=0.7)
+    harness.hyp_search(ctx, strat, body, max_examples=ctx.params["n"], chunk=10, time_frac=0.5)
+
+    # ---- stage 2: expression-level programs (GenEffects restricted to the classical fragment: no qubits,
+    # no panics): walrus / conditional expressions / and-or / chained comparisons inside assignments,
+    # conditions, call arguments, augmented and subscript assignments, struct fields, tuple indexing.
+    from vlib.gen import effects
+
+    def body_e(b):
+        st, bucket, detail = evaluate(b["src"])
+        verdicts = [("ok", None, None)] * len(b["parts"]) if st == "ok" else [evaluate(p_["src"]) for p_ in b["parts"]]
+        for p_, (st1, b1, d1) in zip(b["parts"], verdicts):
+            for e in p_["excluded"]:
+                ctx.exclude("expression programs: C05 known class " + e)
+            record(p_["src"], ["E"] + [l for l in p_["labels"] if l.startswith("stmt:")], p_["nontrivial"], st1,
+                   ("expr." + b1) if st1 == "mismatch" else b1, d1)
+
+    if ctx.params.get("n_expr"):
+        harness.hyp_search(ctx, effects.program_batches(k=5, allow_known=False, classical=True), body_e,
+                           max_examples=ctx.params["n_expr"], chunk=5, time_frac=0.65, extra_seed=5)
+
+    # ---- stage 3: `for` over range at the edges of the 64-bit domain (few iterations, many loops per program)
+    from hypothesis import strategies as st_
+
+    LO, HI = -2**63, 2**63 - 1
+    edge = st_.sampled_from([LO, LO + 1, LO + 2, LO + 7, HI, HI - 1, HI - 2, HI - 9, 0, 1, -1, 2**62, -2**62, 2**63 - 2**61])
+    val = st_.one_of(edge, st_.integers(-50, 50), st_.integers(LO, HI))
+
+    def lit(v):
+        return "(-9223372036854775807 - 1)" if v == LO else (str(v) if v >= 0 else f"({v})")
+
+    @st_.composite
+    def range_prog(draw):
+        lines, loops = [], []
+        for k in range(12):
+            a, b = draw(val), draw(val)
+            n = draw(st_.integers(1, 4))
+            form = draw(st_.integers(0, 5))
+            s = (b - a) // n or draw(st_.sampled_from([1, -1, 3, -5]))
+            if form == 0:
+                s = -s  # empty direction
+            elif form == 1:
+                s = draw(st_.sampled_from([1, -1, 2, -2, 5, -5]))
+                b = max(LO, min(HI, a + s * n + draw(st_.integers(-1, 1))))
+            s = max(LO, min(HI, s)) or 1
+            if len(range(a, b, s)) > 6:
+                b = a
+            loops.append([a, b, s])
+            lines += [f"    for i{k} in range({lit(a)}, {lit(b)}, {lit(s)}):", f'        result("r{k}", i{k})',
+                      f'    result("e{k}", {k})']
+        return {"src": "\n@guppy\ndef main() -> None:\n" + "\n".join(lines) + "\n", "loops": loops}
+
+    def body_r(p):
+        st1, b1, d1 = evaluate(p["src"])
+        edgy = sum(1 for a, b, s in p["loops"] if len(range(a, b, s)) >= 1 and
+                   (min(a, b) < LO + 2**32 or max(a, b) > HI - 2**32 or abs(s) > 2**32))
+        record(p["src"], ["R", f"R:edgy_loops:{min(edgy, 6)}"], edgy >= 2, st1, ("range." + b1) if st1 == "mismatch" else b1, d1)
+
+    if ctx.params.get("n_range"):
+        harness.hyp_search(ctx, range_prog(), body_r, max_examples=ctx.params["n_range"], chunk=5, time_frac=0.72, extra_seed=9)
     n = total[0]
     if n >= 20 and outside[0] > 0.15 * n:
         ctx.harness_error(f"generator unsound: {outside[0]}/{n} generated programs were not accepted")
@@ -115,7 +185,10 @@ def worker(ctx):
             def fails(p, _b=bucket):
                 st, b, d = evaluate(p["src"])
                 return (p["src"], d) if st == "mismatch" and b == _b else None
-            r = harness.hyp_shrink(ctx, single, fails, budget_s=min(60, ctx.budget_s * 0.25), max_examples=150)
+
+            r = None
+            if not bucket.startswith(("expr.", "range.")):
+                r = harness.hyp_shrink(ctx, single, fails, budget_s=min(60, ctx.budget_s * 0.25), max_examples=150)
             if r:
                 src, detail = r[1]
         fb = f"{bucket}:{feature_bucket(src)}"
@@ -128,13 +201,18 @@ SPEC = harness.Spec(
           "while True, for over range/arrays/copy(), break/continue/early return, unreachable code, tuples, structs, arrays, "
           "unpacking incl. starred, walrus, conditional expressions, chained comparisons, recursion, nested defs); each function is "
           "called on 2-4 boundary-biased argument tuples. non-trivial = accepted program with >=1 loop or >=2 ifs and a control "
-          "statement entered with >=2 live variables of the same type; distinct = distinct source text"),
+          "statement entered with >=2 live variables of the same type; distinct = distinct source text. Stage 2: GenEffects "
+          "expression programs restricted to the classical fragment (walrus, conditional expressions, and/or, chained comparisons, "
+          "calls, struct fields, tuple indexing inside assignments, conditions, arguments, augmented / subscript assignments; 5 per "
+          "build). Stage 3: programs of 12 `for` loops over range(a, b, s) with a, b, s at the edges of the 64-bit domain and <= 6 "
+          "iterations each (non-trivial = >= 2 non-empty loops touching the edge region)"),
     assumptions=["CPython 3.12 is the reference semantics; ints reduced mod 2^64 into the signed range after every arithmetic op",
                  "selene 0.4.3 executes the lowered copy of the package (compat bridge, DESIGN.md 1.2)",
                  "programs the checker rejects or that crash the compiler are outside this property (C01/C02/C08 judge them); their rate is bounded (<15%) else exit 2"],
     shards={"quick": 16, "thorough": 16},
-    budget_s={"quick": 100, "thorough": 1200},
-    params={"quick": {"n": 12, "batch": 4}, "thorough": {"n": 400, "batch": 4}},
+    budget_s={"quick": 130, "thorough": 1400},
+    params={"quick": {"n": 10, "batch": 4, "n_expr": 4, "n_range": 3},
+            "thorough": {"n": 400, "batch": 4, "n_expr": 150, "n_range": 60}},
     min_nontrivial=30,
 )
 
